@@ -19,7 +19,7 @@ func init() {
 			"C08.6 (=C02.3) AddrEqual compares IP (net.IP.Equal, so 4- and 16-byte spellings agree) and port of both arguments, and the by-address / by-number lookups return only elements read from the live table; " +
 			"C08.8 (=C13.10) keys made from net/netip values are unmapped first, so one peer spelled in 4-byte and in IPv4-mapped form is one key for the conflict tests; C08.9 (=C11.3) the channel number written into a ChannelData header is the binding's number in its own 16 bits (no wider combined write that lets the length spill into it); " +
 			"C08.7 (=C02.1/C02.4) every write toward the client is guarded by a lookup made for the source of the very read that produced the datagram, on the owning allocation's socket and address; " +
-			"C08.5 IsChannelData, ChannelData.Decode, consumeSingleTURNFrame and ChannelNumber.Valid all decide through the one predicate isChannelNumberValid whose bounds are the constants 0x4000 and 0x7FFF. C08.10 handleChannelBindRequest reaches AddChannelBind unless one of the named refusals applies (a capacity refusal only for a request that would create a binding).",
+			"C08.5 IsChannelData, ChannelData.Decode, consumeSingleTURNFrame and ChannelNumber.Valid all decide through the one predicate isChannelNumberValid whose bounds are the constants 0x4000 and 0x7FFF. C08.10 handleChannelBindRequest reaches AddChannelBind unless one of the named refusals applies (a capacity refusal only for a request that would create a binding). C08.11 (=C07.8) a binding is reported and removed in one step.",
 		NotCovered: "the bijection over histories with expiry (dynamic); concurrent ChannelBind requests on one allocation (serialised by the listener goroutine, not checked here).",
 		Run:        runC08,
 	})
@@ -402,6 +402,7 @@ func runC08(c *Ctx) {
 	ruleClientSocketWrites(c, "C08.7", "C08.7d")
 	ruleNetipUnmapped(c, "C08.8", "allocation", "ipnet", "server")
 	ruleChannelBindRefusals(c, "C08.10")
+	ruleReportWithRemoval(c, "C08.11")
 	// the number on the wire is the number bound (=C11.3, header clause)
 	c.Rule("C08.9", "the ChannelData header written by WriteHeader carries uint16(Number) in Raw[0:2] and uint16(len(Data)) in Raw[2:4], each by its own 16-bit write (=C11.3 b)", 1)
 	ruleChannelHeaderWritten(c, "C08.9")
